@@ -1,9 +1,21 @@
 #!/usr/bin/env python3
-"""Print the prompt for a seeding sub-agent: tools/seed_prompt.py C07 /tmp/wt_c07"""
+"""Print the prompt for a seeding sub-agent: tools/seed_prompt.py C07 /tmp/wt_c07 [round]
+(round 2: the summaries of the changes already kept for that property are listed as ideas to avoid; the
+output directory becomes /tmp/seed_<id>_r<round>)"""
 import json, sys
 pid, wt = sys.argv[1], sys.argv[2]
+rnd = sys.argv[3] if len(sys.argv) > 3 else ''
+import glob, os
+prev = []
+if rnd:
+    for d in sorted(glob.glob('/verif/seeded/%s-*' % pid)):
+        try:
+            prev.append(json.load(open(os.path.join(d, 'meta.json'))).get('summary', '')[:300])
+        except Exception:
+            pass
 p = [json.loads(l) for l in open('/verif/properties.jsonl') if json.loads(l)['id'] == pid][0]
-print(f"""You are helping to evaluate how well a verification effort detects regressions in the open-source Python hardware DSL pymtl3. You get ONE semantic property of pymtl3 and your own scratch git worktree of the repository at {wt} (a checkout of the current HEAD; work ONLY inside {wt} and in /tmp/seed_{pid.lower()} for your own files; never touch /repo or /verif, and do not read anything under /verif -- your work must be independent of the existing verification machinery).
+OUT = "/tmp/seed_" + pid.lower() + (("_r" + rnd) if rnd else "")
+text = (f"""You are helping to evaluate how well a verification effort detects regressions in the open-source Python hardware DSL pymtl3. You get ONE semantic property of pymtl3 and your own scratch git worktree of the repository at {wt} (a checkout of the current HEAD; work ONLY inside {wt} and in /tmp/seed_{pid.lower()} for your own files; never touch /repo or /verif, and do not read anything under /verif -- your work must be independent of the existing verification machinery).
 
 Property {pid}: {p['title']}
 Statement: {p['statement']}
@@ -18,3 +30,7 @@ For each change deliver, in /tmp/seed_{pid.lower()}/A and /tmp/seed_{pid.lower()
   * demo.py      -- a small stand-alone program using only pymtl3's public API that exits 0 on the unchanged tree and exits non-zero (assertion failure showing the broken property) with the change applied; run as `cd /tmp/seed_{pid.lower()}/A && PYTHONPATH={wt} /venv/bin/python demo.py` (components with update blocks must be defined in a real .py file -- demo.py itself is fine),
   * meta.json    -- {{"property": "{pid}", "summary": "...", "files": [...], "needs_to_manifest": "...what specific input/schedule/sequence is needed...", "tests_run": "...command and result...", "why_tests_miss_it": "..."}}.
 Run `git -C {wt} clean -fdq` to remove files the tests write (e.g. *__pickled.v) and leave the worktree with NO modification at the end (`git -C {wt} checkout -- .`); the patches live only in /tmp/seed_{pid.lower()}. Python: /venv/bin/python (pymtl3 is imported from PYTHONPATH first). No network. In your final message list for A and B: the idea, the diff, the demo output with and without the change, and the full-suite result.""")
+text = text.replace("/tmp/seed_" + pid.lower(), OUT)
+if prev:
+    text += "\n\nOther people have already produced the following changes for this property. Produce changes with DIFFERENT mechanisms, in different functions (ideally different files), and prefer parts of the implementation behind this property that these do not touch:\n" + "\n".join(" - " + p for p in prev)
+print(text)
